@@ -1,6 +1,7 @@
 import RagcModel.Model.Kmer
 import Driver.Proto
-namespace Driver
+namespace Driver.HKmer
+open Driver
 open Ragc.Kmer
 
 def symList (l : List Nat) : List UInt64 := l.map UInt64.ofNat
@@ -25,4 +26,8 @@ def handleKmer : List String → Option String
     some s!"ok {(canonicalKmer (UInt64.ofNat v) k).toNat}"
   | _ => none
 
+end Driver.HKmer
+
+namespace Driver
+export HKmer (handleKmer)
 end Driver
